@@ -511,10 +511,11 @@ func RunStreamCapture(em *Emitter, tr int, st *Stream, capt *Capture) {
 	gapped := map[string]bool{}
 	retired := ""
 	type ladder struct {
-		limit uint64
-		c     *arrow_record.Consumer
-		rec   *inuseRec
-		dead  bool
+		limit   uint64
+		c       *arrow_record.Consumer
+		rec     *inuseRec
+		dead    bool
+		refused bool
 	}
 	var ladders []*ladder
 	for _, l := range st.Limits {
@@ -611,13 +612,15 @@ func RunStreamCapture(em *Emitter, tr int, st *Stream, capt *Capture) {
 				mx = math.MaxInt32
 			}
 			lev := map[string]any{"k": k, "sig": sig, "oc": doc, "err": dmsg, "n": n, "a": int(lim),
-				"b": int(mx), "flag": boolp(isLimit)}
+				"b": int(mx), "flag": boolp(isLimit), "bid": boolp(ld.refused)}
 			if !bs.NoDump {
 				lev["out"] = out
 			}
 			em.Emit(tr, "Ladder", lev)
 			if doc != "ok" {
-				ld.dead = true
+				// keep feeding the consumer: every later batch must again be decoded completely or
+				// refused with the recognisable error; only its telemetry is no longer comparable
+				ld.refused = true
 			}
 		}
 		toDecode := bar
